@@ -30,6 +30,10 @@ CHECKS['C11'] = dict(engine='W-loop', level='exploration', design='5/C11',
    text='seeded search over heart-beat populations (1-8, sometimes 30-40 objects) and scripts of set_heart_beat(self/other, 0/1/n), destruct, clone-and-enable and error actions run inside heart_beat functions on chosen beats and between ticks, plus a class where the timer fires in the middle of a round, executed by the real call_heart_beat/set_heart_beat/error_handler; oracle: reference cadence model per enabled window (first beat within n ticks, exact for windows opened between ticks, then exactly every n ticks, at most one per tick, never after disable/destruct, only the failing object is switched off, heart_beats()/query_heart_beat agree). Sampling, not proof.',
    note='cadence is judged only over stretches of ticks that complete without error and without a mid-round timer expiry; phase within the first n ticks left open for windows opened during a round',
    technique='deterministic simulation with fault injection (plan-driven timer incl. mid-round expiry, seeded heart-beat scripts, reference cadence model)')
+CHECKS['C12'] = dict(engine='W-loop', level='exploration', design='5/C12',
+   text='seeded search over 1-12 clients with gapped connection slots (connect, disconnect some, connect more), 0-20 queued command lines each delivered in one or many recv() segments at seeded cycles, perpetual single-character-mode users, commands that call command() several times, users joining and leaving mid-run, run by the real backend loop and process_user_command/get_user_command; oracle per cycle from the service log: a user whose received bytes complete a command is served in that very cycle, exactly once, with the head of its FIFO; command() calls all execute. Sampling, not proof.',
+   note='a cycle is one pass of the backend loop (= one epoll_wait of the simulated kernel); what is buffered is derived from the bytes recv() actually returned',
+   technique='deterministic simulation with fault injection (seeded arrival patterns and disconnects, per-cycle fairness model)')
 PENDING = 'check not built yet (work in progress, see DESIGN.md section 10)'
 
 def main():
